@@ -53,7 +53,7 @@ MIX = (0.12, 0.47, 0.60, 0.72, 0.80, 0.90)
 _TMP = None
 _GUARD = None
 _IIE = None
-_LAST = {"site": None, "exc": None}
+_LAST = {"site": None, "exc": None, "target": None}
 
 FAMILIES = ["default", "status", "q", "qi", "qv", "qvv", "hide", "p", "show", "offset", "fromto", "combo"]
 
@@ -94,6 +94,14 @@ def setup(ctx):
     def factory(orig):
         def is_internal_error(tb):
             _LAST["site"] = cliwork.innermost_repo_function(tb)
+            # which value was being delivered to the monitor (serdes frame locals)
+            _LAST["target"] = None
+            t = tb
+            while t is not None:
+                fr = t.tb_frame
+                if fr.f_code.co_filename.endswith(os.path.join("bitstream", "serdes.py")) and "target" in fr.f_locals:
+                    _LAST["target"] = (fr.f_locals.get("target"), fr.f_locals.get("value"))
+                t = t.tb_next
             ei = sys.exc_info()
             _LAST["exc"] = (ei[0].__name__ if ei[0] else None, str(ei[1])[:200], traceback.format_exc()[-2500:])
             return orig(tb)
@@ -260,7 +268,10 @@ def cases(spec, ctx):
         for fam in FAMILIES:
             yield with_opts({"data": d, "op": op, "seed": "-"}, fam)
     for i in range(spec["n"]):
-        case = cliwork.draw(corpus, rng, ctx, MIX)
+        if rng.random() < 0.03:
+            case = cliwork.zero_run(corpus, rng)
+        else:
+            case = cliwork.draw(corpus, rng, ctx, MIX)
         if case is None:
             continue
         if case == "other":
@@ -281,7 +292,7 @@ def run_case(case, ctx):
     argv = [path] + opts
     if bv.time.__class__ is _Clock:
         bv.time.now = 1000.0
-    _LAST["site"] = _LAST["exc"] = None
+    _LAST["site"] = _LAST["exc"] = _LAST["target"] = None
     try:
         res = cliwork.call_main(bv.main, argv, "vc2-bitstream-viewer")
     except OutOfScope:
@@ -292,6 +303,16 @@ def run_case(case, ctx):
         # the argument parser refused the option list: a generator mistake, not an observation of the viewer
         ctx.inconclusive_note("argument parser exit %r for options %r: %s" % (res.status, opts, res.stderr[-200:]))
         return
+
+    if res.status == 255 and _LAST["target"]:
+        # the monitor is called before the size guard sees the value: a failure while
+        # displaying a size-determining field beyond its bound is out of scope, not an observation
+        tname, tval = _LAST["target"]
+        bound = vc2util.GUARD_BOUNDS.get(tname)
+        if bound is not None and isinstance(tval, int) and tval > bound:
+            ctx.count("out_of_scope")
+            ctx.count("out_of_scope_after_internal_error")
+            return
 
     family = case.get("family", "?")
     ctx.seen(jsonx.key_hash([data, opts]))
@@ -311,7 +332,10 @@ def run_case(case, ctx):
 
     if res.raised:
         ctx.count("status:raised")
-        ctx.violation("viewer-internal-error:%s:%s" % (res.site or "?", res.exc_class),
+        mech = "%s:%s" % (res.site or "?", res.exc_class)
+        if res.exc_class == "ValueError" and "integer string conversion" in (res.exc_text or ""):
+            mech = "int-max-str-digits"
+        ctx.violation("viewer-internal-error:" + mech,
                       "exception %s escaped main(): %s" % (res.exc_class, res.exc_text), detail=dict(detail, tb=res.tb))
         return
     ctx.count("status:%s" % (res.status,))
@@ -325,7 +349,11 @@ def run_case(case, ctx):
 
             m = re.search(r"internal error in bitstream viewer: (\w+):", res.stderr)
             cls = m.group(1) if m else "?"
-        ctx.violation("viewer-internal-error:%s:%s" % (site or "?", cls),
+        mech = "%s:%s" % (site or "?", cls)
+        if cls == "ValueError" and "integer string conversion" in (exc[1] or res.stderr):
+            # CPython >= 3.11 refuses str(int) beyond 4300 digits: one root cause wherever the number is formatted
+            mech = "int-max-str-digits"
+        ctx.violation("viewer-internal-error:" + mech,
                       "status 255 (internal error): %s: %s" % (cls, exc[1]), detail=dict(detail, tb=exc[2]))
         return
     if res.status not in ALLOWED or isinstance(res.returned, bool) or not isinstance(res.returned, int):
